@@ -54,7 +54,7 @@ var BuiltinNames = []string{"not", "isnull", "isnotnull", "tolower", "toupper", 
 // PassThrough are function names the compiler passes through unchanged and
 // the harness's SQL evaluator treats as opaque (it gives none of them a
 // meaning of its own).
-var PassThrough = []string{"f", "g2", "dateadd", "my_func", "F", "strlen", "Not", "COUNTIF", "bin"}
+var PassThrough = []string{"f", "g2", "dateadd", "my_func", "F", "strlen", "COUNTIF", "bin"}
 
 var numSpellings = []string{"0", "1", "2", "7", "42", "007", "0x1F", "0X0a", "0xffffffffffffffff", ".5", "1.", "1.5", "0.25", "1e3", "1E+2", "1.e-1", "00.50", "9007199254740993", "123456789012345678901234567890", "1e400"}
 var intSpellings = []string{"0", "1", "2", "3", "10", "007", "0x1F", "0X0a", "18446744073709551615"}
